@@ -4,7 +4,7 @@ import itertools
 import random
 
 from common import Recorder, guarded, main
-from gen import specs, build_fiber, build_tensor, spec_key, random_spec
+from gen import specs, build_fiber, build_tensor, spec_key, random_spec, scale_spec
 from history import apply_op, op_universe, root_of
 from spec.oracle import wf_problems, raw
 
@@ -101,9 +101,41 @@ def run(tier, seed):
         ops = [rnd.choice(uni3) for _ in range(hist_len)]
         rec.case("depth3-random-history", (spec_key(spec), repr(ops)))
         check_history(rec, "depth3-random-history", 3, 2, spec, ops, True)
+    # at scale: seeded random histories on fibers far outside the enumerated scope
+    for _ in range(60 if tier == "quick" else 800):
+        if rec.out_of_time():
+            break
+        spec, nn = scale_spec(rnd, count=rnd.choice([10, 25, 60]))
+        cs = sorted(spec)
+        ops = []
+        for _j in range(rnd.randint(1, 4)):
+            c = rnd.choice([rnd.choice(cs), rnd.choice(cs) + 1, rnd.randrange(nn), max(cs) + 1 + rnd.randrange(3)])
+            k = rnd.randrange(8)
+            if k == 0:
+                ops.append(["ref", [min(c, nn - 1)], rnd.choice(["none", "set", "add"]), rnd.choice([0, 1, 2])])
+            elif k == 1:
+                ops.append(["append", [], c, 1])
+            elif k == 2:
+                ops.append(["posref", [], min(c, nn - 1)])
+            elif k == 3:
+                ops.append(["setitem", [], rnd.randrange(len(cs)), min(c, nn - 1), 2])
+            elif k == 4:
+                ops.append(["setitem_val", [], rnd.randrange(len(cs)), rnd.choice([0, 2])])
+            elif k == 5:
+                lo = rnd.randrange(nn)
+                ops.append(["range_ref", [], lo, min(nn, lo + rnd.randint(0, 12))])
+            elif k == 6:
+                src, _n2 = scale_spec(rnd, vals=(1, 2), count=rnd.choice([2, 5, 15]), maxcoord=nn)
+                ops.append(["populate", [], dict(src), [rnd.choice(["assign", "leave", "acc", "reset"]) for _q in range(rnd.randint(1, 3))]])
+            else:
+                ops.append(["clear", []] if rnd.random() < 0.2 else ["imul_scalar", [], rnd.choice([0, 2])])
+        owned = rnd.random() < 0.5
+        rec.case("scale", (spec_key(spec), repr(ops), owned))
+        check_history(rec, "scale", 1, nn, spec, ops, owned)
     return rec.result("depth 1: every fiber over 3 coordinates with payloads {absent,0,1,2} x every op of the universe (owned and free-standing), "
                       "plus op pairs; depth 2: every tree over 2 coordinates x every op, plus seeded random histories over 3 coordinates; "
-                      "depth 3: seeded random histories. Checked after every step. Non-trivial = distinct (initial tree, history).")
+                      "depth 3: seeded random histories; plus seeded random depth-1 histories at scale (10-60 elements). Checked after every step. "
+                      "Non-trivial = distinct (initial tree, history).")
 
 
 def replay(case):
